@@ -24,7 +24,7 @@ RESET = 0
 #   10: "primary font" == clearing the font group: may be classed APPLY or CLEAR of font
 #   20: Fraktur: ECMA groups it with 23 (italic off), terminals that implement it treat it as a font
 AMBIGUOUS_GROUP = {20: {'font', 'italic'}}
-AMBIGUOUS_FN = {10: {'APPLY', 'CLEAR'}}
+AMBIGUOUS_FN = {}      # (10 was tolerated as APPLY or CLEAR until D25 showed that the renderer, which writes 10 to end a font, needs the reader to agree)
 
 EXTENDED_SETUP = {38: 'fg', 48: 'bg', 58: 'ulcolor'}   # followed by 5;n or 2;r;g;b
 EXTENDED_FORMS = {5: 1, 2: 3}                            # colour-space selector -> number of arguments
